@@ -920,6 +920,14 @@ def check_query_algebra(tier, out):
                 es = u.extend_query("z=" + "1")
                 if _pairs(es) != ex_pairs + [("z", "1")]:
                     out.fail("extend_query(str) != existing + pairs", {"existing": ex_pairs}, _pairs(es), ex_pairs + [("z", "1")])
+        # raw splice of extend_query: the existing raw query is kept byte for byte, '&' is inserted
+        # unless it already ends with '&'
+        for rawq in ("a=1;", "k;", "a=1&", "a=1", "a=%3B", "a=1&&"):
+            ub = URL("http://h/p?" + rawq, encoded=True)
+            got = ub.extend_query("n=v").raw_query_string
+            want = rawq + ("" if rawq.endswith("&") else "&") + "n=v"
+            if got != want:
+                out.fail("extend_query(str) does not append after the existing raw query", {"existing_raw": rawq, "arg": "n=v"}, got, want)
         # None / rejected values
         if _pairs(u.with_query(None)) != [] or _pairs(u.update_query(None)) != [] or _pairs(u.extend_query(None)) != ex_pairs:
             out.fail("None does not clear (with/update) or keep (extend) the query", {"existing": ex_pairs}, "?", "cleared / kept")
